@@ -15,7 +15,6 @@ use mithril_common::entities::{ProtocolParameters, SignedEntityTypeDiscriminants
 use mithril_era::{EraMarker, EraReader, adapters::EraReaderDummyAdapter};
 use mithril_common::entities::{Epoch, SupportedEra};
 use mithril_common::test::double::Dummy;
-use mithril_cardano_node_chain::test::double::DumbBlockScanner;
 use warp::Filter;
 use warp::filters::BoxedFilter;
 
@@ -175,6 +174,11 @@ impl AggregatorNode {
                 self.settings.entity_types.iter().map(|d| d.to_string()).collect::<Vec<_>>().join(","),
             ),
             data_stores_directory: stores,
+            // blocks 100, 120, ...: a beacon every 15 blocks, nothing held back from the tip
+            cardano_transactions_signing_config: Some(mithril_common::entities::CardanoTransactionsSigningConfig {
+                security_parameter: mithril_common::entities::BlockNumberOffset(5),
+                step: mithril_common::entities::BlockNumber(15),
+            }),
             ..ServeCommandConfiguration::new_sample(snapshots)
         }
     }
@@ -201,7 +205,7 @@ impl AggregatorNode {
                 Some(Epoch(0)),
             )]));
             b.era_reader = Some(Arc::new(EraReader::new(era_adapter)));
-            b.block_scanner = Some(Arc::new(DumbBlockScanner::new()));
+            b.block_scanner = Some(Arc::new(crate::chain::SimBlockScanner { view: view.clone() }));
             let gate = Arc::new(GatedSignedEntityStorer {
                 inner: Arc::new(SignedEntityStore::new(b.get_sqlite_connection().await?)),
                 gate: tokio::sync::watch::channel(false).0,
